@@ -43,6 +43,10 @@ CLAIMED = {
     'C12': ('Bounded model checking of the interval dynamic programme optimalPartition (and its wiring through optimalSegmentation) on a fully symbolic '
             'cost matrix: on every path the returned partition is proved optimal against all 2^(N-2) enumerated partitions, for both directions.',
             'DESIGN.md#c12', 'N <= 5 candidates fully explored (thorough: N = 6 under budget); costs in [0,100]', ''),
+    'C17': ('Bounded model checking of computeAbsCurv (ds feature, Integrator, temporary removal) and estimate_speed (centred / one-sided differences, zero-duration guard) on symbolic '
+            'coordinates and symbolic integer-millisecond instants with ties: per path the abscissa increments and the speeds are proved equal to independent square-root terms over dx^2+dy^2 '
+            '(lemma chaining), the frame conditions (positions, timestamps, other features, temporary ds) checked, and a second computation compared.',
+            'DESIGN.md#c17', 'abs_curv n <= 3 (quick) / 5 (thorough); speed n <= 3 / 4; coordinates in [-100,100]', ''),
     'C18': ('Bounded model checking of DTW / fast DTW / discrete Frechet matching on symbolic heights (dim=1) and on a free symbolic cost matrix '
             '(dim=<function>): on every path the score is proved equal to the minimum over all enumerated monotone couplings and the returned matching is '
             'proved to be such a coupling accumulating exactly the score.',
